@@ -137,9 +137,11 @@ def targets():
              FunctionParser.resolve_forward_refs.__code__, ParserField.resolve_forward_refs.__code__,
              Rule.resolve_forward_refs.__func__.__code__, LogicalType.resolve_forward_refs.__code__,
              TypeRegistry.resolve.__code__, TypeRegistry.register.__code__]
-    inner = getattr(BaseParser, "_resolve_forward_refs", None)
-    if inner is not None:
-        codes.append(inner.__code__)
+    for cls in (BaseParser, FunctionParser):
+        for name in ("_resolve_forward_refs", "resolve_forward_types"):
+            inner = cls.__dict__.get(name)
+            if inner is not None:
+                codes.append(inner.__code__)
     todo = [TypeRegistry.register.__code__]
     while todo:         # the decorator defined inside register, and whatever is defined inside that (a sort key, ...)
         for c in todo.pop().co_consts:
